@@ -139,17 +139,21 @@ let run_session (c : cs) (transfers : (string * string list * string list) list)
   let doff = n_of_int c.doff in
   let rets = Buffer.create 16 in
   let snaps = ref [] in
+  let cur_ridx = ref [] in
   let xf = List.fold_left (fun (x, first) (steps, hdrs, frags) ->
     begin
     if not first then Buffer.add_char rets '/';
     (* steps before the transfer, in the order given: e = zck_clear_error, r = re-scan of the target *)
     let x = ref x in
     String.iter (fun ch -> if ch = 'e' then x := clear_error !x else if ch = 'r' then x := rescan h doff !x) steps;
-    let x = dl_reset !x in
+    (* n = no reset and no new range: the header lines / fragments continue the transfer in progress *)
+    let cont = String.contains steps 'n' && not first in
+    let x = if cont then !x else dl_reset !x in
     (* with an error pending zck_get_missing_range returns NULL (marked E): no range is set, and every header line
        and fragment is refused at the entry checks - as the model does whatever the range *)
     if x.x_dl.d_err then Buffer.add_char rets 'E';
-    let ridx = missing_ridx x.x_dl.d_tab in
+    let ridx = if cont then !cur_ridx else missing_ridx x.x_dl.d_tab in
+    cur_ridx := ridx;
     let x = List.fold_left (fun x l -> header_cb rx_comp rx_exec x (bytes_of_string l)) x hdrs in
     let rec go x = function
       | [] -> x
